@@ -114,6 +114,7 @@ class Fn:
         self._defs = None
         self._expr_cache = {}
         self._sites = False
+        self._norm = False
 
     # ---------------------------------------------------------------- CFG
     def succ(self, bb, include_unwind=False):
@@ -296,6 +297,14 @@ class Fn:
                         best = (len(want), name, have[len(want):])
             if best:
                 return self._apply_proj("up:" + best[1], best[2], lambda l: self.expr_local(l, max(depth - 1, 0), stack))
+        # `match (a, b) { .. }`: a component of a tuple that was built on the spot is that component's value
+        proj = [x for x in pl["p"] if x != "*"]
+        if self._norm and proj and isinstance(proj[0], dict) and "f" in proj[0] and pl["l"] > self.argc and pl["l"] not in stack:
+            ds = self.defs().get(pl["l"], [])
+            if len(ds) == 1 and ds[0][0] == "assign" and ds[0][3]["rv"]["k"] == "agg" and ds[0][3]["rv"]["agg"] == "tuple" \
+                    and not self.varnames.get(pl["l"]) and isinstance(proj[0]["f"], int) and proj[0]["f"] < len(ds[0][3]["rv"]["ops"]):
+                inner = self.expr_operand(ds[0][3]["rv"]["ops"][proj[0]["f"]], depth, stack + (pl["l"],))
+                return self._apply_proj(inner, proj[1:], lambda l: self.expr_local(l, max(depth - 1, 0), stack))
         base = self.expr_local(pl["l"], depth, stack)
         return self._apply_proj(base, pl["p"], lambda l: self.expr_local(l, max(depth - 1, 0), stack))
 
@@ -388,7 +397,42 @@ class Fn:
             return f"indirect[{self.expr_operand(t['func'], depth, stack)}]({', '.join(args)})"
         if self._sites:
             return f"{callee}@{self._site_of(t)}({', '.join(args)})"
+        if self._norm and callee in ("std::option::Option::map_or", "std::option::Option::unwrap_or"):
+            e = self._option_default_form(callee, args)
+            if e is not None:
+                return e
         return f"{callee}({', '.join(args)})"
+
+    def _option_default_form(self, callee, args):
+        """`o.map_or(d, |x| E)` and `o.map(|x| E).unwrap_or(d)` with a closure that only computes (no calls) are rendered
+        like the `if let Some(x) = o { E } else { d }` they abbreviate: φ{E[x := o@Some.0] | d}"""
+        if callee.endswith("map_or") and len(args) == 3:
+            o, d, cl = args
+        elif callee.endswith("unwrap_or") and len(args) == 2 and args[0].startswith("std::option::Option::map("):
+            from .idioms import call_parts
+            inner = call_parts(args[0])
+            if not inner or len(inner[1]) != 2:
+                return None
+            (o, cl), d = inner[1], args[1]
+        else:
+            return None
+        m = re.match(r"^closure\[([^\]]+)\]\((.*)\)$", cl)
+        c = self.facts.fns.get(m.group(1)) if m else None
+        if c is None or c.calls() or c.argc != 2:
+            return None
+        from .idioms import split_args
+        caps = split_args(m.group(2))
+        body = c.expr_local(0)
+        if "φ{" in body or "loop(" in body:
+            return None
+        names = [u[2] for u in c.upvars]
+        if len(names) != len(caps):
+            return None
+        pname = c.local_name(2)
+        out = re.sub(re.escape(pname) + r"(?![\w])", lambda _m: o + "@Some.0", body)
+        for n_, v in zip(names, caps):
+            out = re.sub(r"up:" + re.escape(n_) + r"(?![\w])", lambda _m, v=v: v, out)
+        return "φ{" + " | ".join(sorted({out, d})) + "}"
 
     def _site_of(self, t):
         for i, b in enumerate(self.blocks):
@@ -410,6 +454,26 @@ class Fn:
         def __exit__(self, *a):
             self.fn._sites = self.prev
             self.fn._expr_cache = self.saved
+
+    class _NormCtx:
+        def __init__(self, fn):
+            self.fn = fn
+
+        def __enter__(self):
+            self.prev, self.saved = self.fn._norm, self.fn._expr_cache
+            self.fn._norm, self.fn._expr_cache = True, {}
+            return self.fn
+
+        def __exit__(self, *a):
+            self.fn._norm, self.fn._expr_cache = self.prev, self.saved
+
+    def normalised(self):
+        """context manager (opt-in per rule): equivalent spellings are rendered alike --
+        `o.map_or(d, |x| E)` / `o.map(|x| E).unwrap_or(d)` with a closure that only computes become φ{E[x := o@Some.0] | d}
+        (what `if let Some(x) = o { E } else { d }` renders as), and a component of a tuple built on the spot
+        (`match (a, b) { .. }`) is that component's value. Not the default: the frozen A7 keys are hashes of the
+        plain rendering."""
+        return Fn._NormCtx(self)
 
     def sites(self):
         """context manager: render call expressions with their block (`callee@bbN(..)`) so that two
